@@ -3,7 +3,7 @@ import json
 import common
 
 PROPS = "RotoV.Props.C05"
-MODULES = ["RotoV.Model.BoundaryLayout", "RotoV.Model.Boundary", "RotoV.Lemmas.BoundaryArith", "RotoV.Lemmas.BoundaryPlace",
+MODULES = ["RotoV.Model.BoundaryLayout", "RotoV.Model.Boundary", "RotoV.Lemmas.BoundaryArith", "RotoV.Lemmas.BoundaryPlace", "RotoV.Lemmas.BoundaryPinned",
            "RotoV.Lemmas.BoundaryLayout", "RotoV.Lemmas.BoundaryAbi", "RotoV.Lemmas.BoundaryValues"]
 
 
